@@ -333,7 +333,11 @@ func (e *Engine) utf8Valid(s string) string {
 
 func (e *Engine) runesUpto(s, i string) string {
 	e.utf8dec(s, "0")
-	e.sc.Decl("fun:runesupto", "(declare-fun utf8.runes_upto (Str Int) Int)\n(assert (forall ((s Str)) (! (= (utf8.runes_upto s 0) 0) :pattern ((utf8.runes_upto s 0)))))\n(assert (forall ((s Str) (i Int)) (! (=> (and (<= 0 i) (< i (slen s))) (and (= (utf8.runes_upto s (+ i (utf8.width s i))) (+ (utf8.runes_upto s i) 1)) (>= (utf8.runes_upto s i) 0))) :pattern ((utf8.runes_upto s i)))))")
+	// runes_upto(s, i): number of runes (valid or not) that start before byte offset i, for i on a rune boundary.
+	// Only runes_upto(s,0)=0 is stated for all s; the step lemma runes_upto(s, i+width(s,i)) = runes_upto(s,i)+1 is
+	// instantiated by the generator at the positions a range-over-string loop visits (a quantified version would be a
+	// matching loop, and stating it for non-boundary positions together with non-negativity is inconsistent).
+	e.sc.Decl("fun:runesupto", "(declare-fun utf8.runes_upto (Str Int) Int)\n(assert (forall ((s Str)) (! (= (utf8.runes_upto s 0) 0) :pattern ((utf8.runes_upto s 0)))))")
 	return fmt.Sprintf("(utf8.runes_upto %s %s)", s, i)
 }
 
